@@ -177,11 +177,12 @@ var zzXPaths = []string{
 	"//T[@a='1'][x]",
 	"/R/T[x='1'] [@a='1']",
 	"/R/T[x!='\u00e9'][@a='1']",
+	"/R/T[x='1']\n\t[@a='1']",
 }
 
 // zzXBase: the same paths without the final step's predicates (the candidates), written out
 // by hand so that the reference does not depend on the code that splits the expression.
-var zzXBase = []string{"/R/T", "//T", "/R/T", "/R/*", "/R/T", "/R/Q/T", "//T", "/R/T", "/R/T", "//T", "/R/T", "/R/T"}
+var zzXBase = []string{"/R/T", "//T", "/R/T", "/R/*", "/R/T", "/R/Q/T", "//T", "/R/T", "/R/T", "//T", "/R/T", "/R/T", "/R/T"}
 
 // C04XmlNs: candidates are told apart by their namespace prefix, not only by their local name:
 // <R xmlns:p="u:p"> with 2..3 children, each <T> or <p:T>, target xpaths with and without prefix.
